@@ -1826,3 +1826,87 @@ func ruleResumeConvention(c *Ctx) {
 		})
 	}
 }
+
+// ruleCoerceBeforeHandler: F89. Arithmetic on a string that converts to a number is arithmetic on that
+// number; a metamethod is looked for only when the conversion fails (lvm.c Arith: luaV_tonumber first,
+// call_binTM second). Evaluated abstractly for the scenario "every raw operand is a string and every
+// conversion succeeds": on that scenario neither objectArith nor the OP_UNM handler may reach the
+// handler lookup (metaOp2 / metaOp1).
+func ruleCoerceBeforeHandler(c *Ctx) {
+	const R = "R04-events"
+	p := c.P
+	pn := c.need(R, "lua", "parseNumber")
+	if pn == nil {
+		return
+	}
+	t := p.vmTable()
+	targets := []struct {
+		key string
+		fn  *ssa.Function
+		lk  *ssa.Function
+	}{
+		{"objectArith", p.Fn("lua", "objectArith"), p.Fn("lua", "(*LState).metaOp2")},
+		{"handler[OP_UNM]", nil, p.Fn("lua", "(*LState).metaOp1")},
+	}
+	if oi := t.ByName["OP_UNM"]; oi != nil {
+		targets[1].fn = oi.Handler
+	}
+	for _, tg := range targets {
+		if tg.fn == nil || tg.lk == nil {
+			c.und(R, tg.key+":converts-before-looking-for-a-handler", "-", "function not found")
+			continue
+		}
+		fn := tg.fn
+		raw := func(v ssa.Value) bool {
+			switch x := v.(type) {
+			case *ssa.Parameter:
+				return true
+			case *ssa.Call:
+				return x.Call.StaticCallee() != pn
+			}
+			return false
+		}
+		reach := reachGiven(fn, func(v ssa.Value) (aval, bool) {
+			switch x := v.(type) {
+			case *ssa.Extract:
+				if ta, ok := x.Tuple.(*ssa.TypeAssert); ok && x.Index == 1 {
+					switch typeName(ta.AssertedType) {
+					case "LString":
+						if raw(ta.X) {
+							return aBool(true), true
+						}
+					case "LNumber":
+						if raw(ta.X) {
+							return aBool(false), true
+						}
+						if _, isPhi := ta.X.(*ssa.Phi); isPhi {
+							return aBool(true), true
+						}
+					}
+				}
+			case *ssa.BinOp:
+				// err == nil / err != nil on parseNumber's error
+				for _, op := range []ssa.Value{x.X, x.Y} {
+					if ex, ok := op.(*ssa.Extract); ok && ex.Index == 1 {
+						if cl, ok := ex.Tuple.(*ssa.Call); ok && cl.Call.StaticCallee() == pn {
+							return aBool(x.Op == token.EQL), true
+						}
+					}
+				}
+			}
+			return aval{}, false
+		})
+		var hit ssa.Instruction
+		for _, cl := range callsTo(fn, tg.lk) {
+			if reach[cl] {
+				hit = cl
+			}
+		}
+		pos := p.pos(fn.Pos())
+		if hit != nil {
+			pos = p.ipos(hit)
+		}
+		c.Sites++
+		c.check(hit == nil && len(callsTo(fn, tg.lk)) > 0, R, tg.key+":converts-before-looking-for-a-handler", pos, "with operands that convert to numbers the handler lookup is not reached", tg.key+" looks for a metamethod before it tries to convert its string operands: with an __add (or __unm) in the string metatable \"10\" + 1 calls the handler instead of yielding 11")
+	}
+}
